@@ -5,6 +5,7 @@ import (
 	"strconv"
 	"strings"
 	"sync"
+	"sync/atomic"
 	"time"
 
 	"verif/harness/host"
@@ -803,12 +804,13 @@ func checkC12(r *verdict.Run) {
 	r.Rule = "fault sequences against blocked clients, for all five blocking commands: (1) timeouts 1e-9..1.5 s (anything above 0 is finite) must end with null not before t and within t+3 s (late only counts when a canary loop answered within 100 ms throughout), also under wake-ups that find nothing (within t+1.5 s), timeout 0 still blocked after 1.5 s then served, invalid timeouts refused; " +
 		"(2) CLIENT UNBLOCK [TIMEOUT|ERROR] - every other time from a connection in another database - delivered while the target is idle, parked before it counts as blocked / before registration / after registration / before capture, waiting, racing a push, unknown id, stale unblock before a later block: reply 1 iff the target's command ends because of it, 0 leaves it unaffected; " +
 		"(3) TCP close / RST / half-close / CLIENT KILL of a blocked client (waiting or parked at any of those stages), then a push: the element must reach a live consumer; (4) 20 block cycles per connection ending by timeout, push and unblock with normal commands in between; blocking commands inside MULTI/EXEC return at once; " +
-		"(5) three clients blocked on one key, the two later ones end their blocks in every pair of ways: the next push belongs to the first. distinct = scenarios"
+		"(6) clients that block for a few milliseconds over and over while others run CLIENT LIST in a loop (a yield inside the state check of CLIENT LIST lets a block begin in the middle of it): every block ends on time and the connections keep working; (5) three clients blocked on one key, the two later ones end their blocks in every pair of ways: the next push belongs to the first. distinct = scenarios"
 	c12Timeouts(r)
 	c12Unblock(r, false)
 	c12Disconnect(r)
 	c12Reuse(r)
 	c12EndingsBehindLiveWaiter(r)
+	c12InspectedWhileBlocking(r, tierPick(r, 150, 1500))
 	if r.Tier == "thorough" {
 		c12Unblock(r, true)
 	}
@@ -914,4 +916,93 @@ func progString(prog [][]string) string {
 		parts = append(parts, cmdString(p))
 	}
 	return strings.Join(parts, "; ")
+}
+
+// c12InspectedWhileBlocking: CLIENT LIST looks at (and briefly marks) the blocking state of every client. Clients that
+// begin and end short blocks all the time are inspected at every instant of that cycle - also exactly when a wait
+// begins (the hook cs:checking yields inside the inspection). Every block must still end after its timeout, and the
+// connection must go on working.
+func c12InspectedWhileBlocking(r *verdict.Run, rounds int) {
+	c, err := startChild(false)
+	if err != nil {
+		r.Inconclusive("cannot start child")
+		return
+	}
+	defer c.Stop()
+	e, err := startEmu(c, "")
+	if err != nil {
+		r.Inconclusive("infra: " + err.Error())
+		return
+	}
+	c.Ctl("seed %d", r.Seed*17+3)
+	c.Ctl("yield cs:checking 600 300")
+	var stop atomic.Bool
+	var wg sync.WaitGroup
+	var listed atomic.Int64
+	for i := 0; i < 3; i++ {
+		wg.Add(1)
+		go func() {
+			defer wg.Done()
+			cn, err := e.dial()
+			if err != nil {
+				return
+			}
+			defer cn.Close()
+			cn.Timeout = 5 * time.Second
+			for !stop.Load() {
+				if _, err := cn.Do("CLIENT", "LIST"); err != nil {
+					return
+				}
+				listed.Add(1)
+			}
+		}()
+	}
+	var stuck atomic.Int64
+	var blocks atomic.Int64
+	var bw sync.WaitGroup
+	example := make(chan string, 1)
+	for i := 0; i < 8; i++ {
+		bw.Add(1)
+		go func(i int) {
+			defer bw.Done()
+			cn, err := e.dial()
+			if err != nil {
+				return
+			}
+			defer cn.Close()
+			forms := [][]string{{"BLPOP", "iw-never", "0.002"}, {"BRPOP", "iw-never", "0.003"}, {"BLMOVE", "iw-never", "iw-dst", "LEFT", "LEFT", "0.002"}, {"BLMPOP", "0.002", "1", "iw-never", "LEFT"}}
+			for k := 0; k < rounds && stuck.Load() == 0; k++ {
+				f := forms[(i+k)%len(forms)]
+				cn.SendCmd(f...)
+				v, _, err := cn.ReadValue(4 * time.Second)
+				if err != nil || !v.Null {
+					if stuck.Add(1) == 1 {
+						example <- fmt.Sprintf("%s (round %d of connection %d) -> %s %v", cmdString(f), k, i, v, err)
+					}
+					return
+				}
+				blocks.Add(1)
+			}
+			if v, err := cn.Do("PING"); err != nil || v.Text() != "PONG" {
+				if stuck.Add(1) == 1 {
+					example <- fmt.Sprintf("PING after the blocks of connection %d -> %s %v", i, v, err)
+				}
+			}
+		}(i)
+	}
+	bw.Wait()
+	stop.Store(true)
+	wg.Wait()
+	r.Eval(int(blocks.Load()))
+	r.Count("blocks_ended_while_being_listed", blocks.Load())
+	r.Count("client_list_calls_meanwhile", listed.Load())
+	if stuck.Load() > 0 {
+		dump := ""
+		if c.Alive() {
+			dump = stallSummary(c.SigQuitDump())
+		}
+		r.Report("timeout/block-never-ends-when-inspected-at-its-start", fmt.Sprintf("a block with a timeout of a few milliseconds did not end (4 s) while other clients ran CLIENT LIST: %s\n%s", <-example, dump), nil)
+		return
+	}
+	r.Distinct("inspected-while-blocking")
 }
